@@ -2,6 +2,7 @@ import ChythonModel.Model.C16Patcher
 import ChythonModel.Spec.C16Deleted
 import ChythonModel.Proofs.C16Deleted
 import ChythonModel.Proofs.C16Patcher
+import ChythonModel.Proofs.C16Overlap
 /-!
 # C16 — template application edits exactly what the template names
 
@@ -11,7 +12,7 @@ Theorems about the executable model `Model/C16Patcher.lean` (the functions `Driv
 `_to_delete` **in any iteration order**, the neighbour lists of `g` are in any (dict) order.
 -/
 namespace ChythonModel.Props.C16
-open ChythonModel.Model ChythonModel.Model.C16 ChythonModel.Spec.C16 ChythonModel.Proofs.C16 ChythonModel.Proofs.C16P
+open ChythonModel.Model ChythonModel.Model.C16 ChythonModel.Spec.C16 ChythonModel.Proofs.C16 ChythonModel.Proofs.C16P ChythonModel.Proofs.C16O
 
 /-- **get_deleted_exact** (full statement, proved). For every undirected graph, every match and every iteration order of
 the deleted set and of the neighbour dicts: the atoms `_get_deleted` returns are exactly the matched atoms absent from
@@ -550,6 +551,39 @@ theorem product_set_independent_of_match_order_partial {s : Mol} {t : Template} 
     obtain ⟨r2, h2, p12⟩ := ih1 r1 h
     obtain ⟨r3, h3, p23⟩ := ih2 r2 h2
     exact ⟨r3, h3, p12.trans p23⟩
+
+/-! ## `fix_mapping_overlap` and the collision remap of `Reactor._single_stage` (unique numbers across molecules)
+
+`orders` / `order` are the iteration orders of the Python sets `intersection` / `collision` (any order). -/
+
+/-- **overlap remap is injective and fresh**: whatever numbers the reactants arrive with (and whatever the set iteration
+orders), the structures `fix_mapping_overlap` returns are as many as the inputs, each keeps pairwise distinct atom numbers, and
+no number occurs in two of them -/
+theorem fix_mapping_overlap_disjoint (ss : List Mol) (orders : List (List Nat)) (out : List Mol)
+    (h : fixMappingOverlap ss orders = .ok out) (hnd : ∀ s ∈ ss, s.ids.Nodup) :
+    out.length = ss.length ∧ (∀ s' ∈ out, s'.ids.Nodup) ∧ out.Pairwise (fun a b => ∀ k ∈ a.ids, k ∉ b.ids) := by
+  unfold fixMappingOverlap at h
+  split at h
+  · next s =>
+    simp only [Except.ok.injEq] at h
+    subst h
+    exact ⟨rfl, by simpa using hnd, by simp⟩
+  · obtain ⟨h1, h2, h3⟩ := fixOverlapLoop_disjoint ss orders [] out h hnd
+    exact ⟨h1, fun s' hs' => (h2 s' hs').1, h3⟩
+
+/-- after the collision remap of `_single_stage` no product atom carries a number of an ignored (spectator) molecule, and
+the product's numbers stay pairwise distinct -/
+theorem collision_remap_disjoint (new new' : Mol) (ignored order : List Nat)
+    (h : collisionRemap new ignored order = .ok new') (hnd : new.ids.Nodup) :
+    (∀ k ∈ new'.ids, k ∉ ignored) ∧ new'.ids.Nodup :=
+  collisionRemap_disjoint h hnd
+
+/-- non-trivial instance: two copies of a 2-atom molecule numbered 1,2 — the second is renumbered to 3,4 -/
+example : (match fixMappingOverlap
+      [⟨[(1, {z := 6}), (2, {z := 8})], [(1, [(2, {order := 1})]), (2, [(1, {order := 1})])]⟩,
+       ⟨[(1, {z := 6}), (2, {z := 7})], [(1, [(2, {order := 1})]), (2, [(1, {order := 1})])]⟩] [[], [2, 1]] with
+    | .ok out => out.map (·.ids) == [[1, 2], [4, 3]]
+    | .error _ => false) = true := by decide
 
 /-- the executable well-formedness test the driver applies to every structure (`Mol.WF`: unique keys, adjacency keyed by
 the atoms, symmetric with the same bond on both sides, no loops) implies the hypotheses of the frame theorems, and the
